@@ -117,7 +117,32 @@ class DC2:
     inner: Optional[DC] = None
 
 
+def _make_payload(t: Any) -> Any:
+    class Payload(pydantic.BaseModel):
+        value: t  # type: ignore[valid-type]
+
+    return Payload
+
+
+def _make_row(t: Any) -> Any:
+    @dataclasses.dataclass
+    class Row:
+        id: t  # type: ignore[valid-type]
+        note: str = "n/a"
+
+    return Row
+
+
+# distinct classes that share module, name and qualname (classes made by a factory, re-defined classes)
+PayloadI = _make_payload(int)
+PayloadS = _make_payload(str)
+PayloadL = _make_payload(List[int])
+RowI = _make_row(int)
+RowS = _make_row(str)
+
 ANNOTS: Dict[str, Any] = {
+    "PayloadI": PayloadI, "PayloadS": PayloadS, "PayloadL": PayloadL, "RowI": RowI, "RowS": RowS,
+    "List[PayloadI]": List[PayloadI], "List[PayloadS]": List[PayloadS],
     "none": None, "Any": Any, "int": int, "str": str, "float": float, "bool": bool,
     "List[int]": List[int], "Optional[int]": Optional[int], "Dict[str, int]": Dict[str, int],
     "Model": Model, "Inner": Inner, "DC": DC, "DC2": DC2, "Optional[Model]": Optional[Model],
@@ -206,6 +231,12 @@ def _gen_value_for(rng: random.Random, ann: str) -> Any:
     if ann == "DC2":
         return rng.choice([DC2(items=[1]), DC2(items=[], inner=DC(a=1)), {"items": ["1", 2]}, {"items": "x"},
                            {"items": [1], "inner": {"a": 2}}, 3])
+    if ann in ("PayloadI", "PayloadS", "PayloadL"):
+        return rng.choice([{"value": "5"}, {"value": 7}, {"value": ["1", "2"]}, {"value": "x"}, {"value": [1]}, 3])
+    if ann in ("RowI", "RowS"):
+        return rng.choice([{"id": "7"}, {"id": 7}, {"id": "x", "note": "k"}, {"note": "only"}, []])
+    if ann in ("List[PayloadI]", "List[PayloadS]"):
+        return rng.choice([[], [{"value": "5"}], [{"value": 5}, {"value": "6"}], [{"value": "x"}], "no"])
     if ann == "List[Model]":
         return rng.choice([[], [{"x": 1, "name": "n", "tags": []}], [{"x": 1}, {"x": "2"}], [{"x": "bad"}], [5], "x"])
     raise KeyError(ann)
@@ -270,7 +301,8 @@ def _dep_plain() -> str:
 
 def build_fn(case: Dict[str, Any]) -> Any:
     ns: Dict[str, Any] = {"Any": Any, "List": List, "Optional": Optional, "Dict": Dict, "Model": Model,
-                          "Inner": Inner, "DC": DC, "DC2": DC2, "Context": Context, "TaskiqDepends": TaskiqDepends,
+                          "Inner": Inner, "DC": DC, "DC2": DC2, "Context": Context, "PayloadI": PayloadI,
+                          "PayloadS": PayloadS, "PayloadL": PayloadL, "RowI": RowI, "RowS": RowS, "TaskiqDepends": TaskiqDepends,
                           "_REC": _REC, "_dep_plain": _dep_plain, "int": int, "str": str, "float": float, "bool": bool}
     parts = []
     star_done = False
@@ -344,9 +376,13 @@ def run_c08(case: Dict[str, Any]) -> "tuple[List[Violation], Dict[str, Any]]":
             kwargs[p["name"]] = dec(s["v"])
     obs: Dict[str, Any] = {"src": src.splitlines()[0], "args": jsonable([prepared(a) for a in args]),
                            "kwargs": jsonable({k: prepared(x) for k, x in kwargs.items()})}
-    msg = task.kicker()._prepare_message(*args, **kwargs)
-    bm = broker.formatter.dumps(msg)
-    back = broker.formatter.loads(bm.message)
+    try:
+        msg = task.kicker()._prepare_message(*args, **kwargs)
+        bm = broker.formatter.dumps(msg)
+        back = broker.formatter.loads(bm.message)
+    except Exception as exc:  # noqa: BLE001
+        v.append(Violation("encode-decode-raised", f"{case['fmt']}: {type(exc).__name__}: {exc} for args={args!r} kwargs={kwargs!r}"))
+        return v, obs
     if back != msg:
         v.append(Violation("roundtrip-mismatch", f"{case['fmt']}: loads(dumps(m)) != m: {back!r} vs {msg!r}"))
     # independent check of the wire content against what was sent
@@ -360,7 +396,11 @@ def run_c08(case: Dict[str, Any]) -> "tuple[List[Violation], Dict[str, Any]]":
     async def main(loop: Any) -> None:
         await receiver.callback(bm.message)
 
-    run_virtual(main)
+    try:
+        run_virtual(main)
+    except Exception as exc:  # noqa: BLE001
+        v.append(Violation("callback-raised", f"Receiver.callback raised {type(exc).__name__}: {exc} for signature {src.splitlines()[0]}"))
+        return v, obs
     if len(_REC) != 1:
         v.append(Violation("not-executed", f"task executed {len(_REC)} times for signature {src.splitlines()[0]}"))
         return v, obs
